@@ -101,6 +101,48 @@ CLAIMED['C12'] = dict(
          'rounding of reductions is outside.',
     ref='4/C12', technique=TECH)
 
+CLAIMED['C05'] = dict(
+    text='density2d is executed symbolically in two halves: the event-to-bin mapping on a 2x3 grid '
+         'with events over 13 symbolic position classes (interior, right/top edge, corner, inner '
+         'edge, outside) judged against the returned bin_mask through an independent binning '
+         'oracle; and the cut on a 2x2 grid where every bin density and the gate fraction are '
+         'solver reals (the Gaussian filter is a stub returning arbitrary non-negative values, so '
+         'the cut is proved for every smoothing) and the kernel width is one of five forms.',
+    note='Trusted: symnp histogram2d/digitize/argsort models, CrossHair, z3. Stub smoothing is '
+         'normalised to total 1 (WLOG). Outside: FP rounding of f*n, contour geometry, larger '
+         'grids, sample-derived bins (C19).',
+    ref='4/C05', technique=TECH + '; real arithmetic')
+CLAIMED['C09'] = dict(
+    text='PARTIAL: the 5% recovery accuracy depends on SciPy\'s compiled optimizer and is NOT '
+         'decided. Decided symbolically with minimize stubbed to any point of the box it is '
+         'given: oddness/zero/monotonicity of the standard curve, bead model = curve - '
+         'autofluorescence, non-negativity and feasibility of every generating triple (read from '
+         'the bounds the real code passes), objective = 0 at the generating parameters and >= 0, '
+         'argument checks.',
+    note='Undecided half first: optimizer convergence (initial guess, tolerances). Trusted: '
+         'axioms exp/log inverse+monotone, x**m = exp(m log x); CrossHair, z3.',
+    ref='4/C09', technique=TECH + '; uninterpreted exp/log with axioms; optimizer stubbed')
+CLAIMED['C18'] = dict(
+    text='PARTIAL: existence/convergence of the root p and the 1e-4*M accuracy of the 1000-point '
+         'interpolated inverse are NOT decided. Decided symbolically: parameter rules for 1-2 data '
+         'sets with/without range and overrides, refusal of invalid parameters, the published '
+         'biexponential, x(W)=0, strict monotonicity for every p>0, the tabulated inverse over '
+         'any strictly increasing transform (4-point table: nodes exact, non-decreasing, masks '
+         'exactly outside [x(0),x(M)]), table wiring (>=1000 points on [0,M]), scale clipping.',
+    note='Undecided half first: root finder and interpolation accuracy. Trusted: 10**/log10 '
+         'axioms, CrossHair, z3, matplotlib base-class stubs.',
+    ref='4/C18', technique=TECH + '; uninterpreted 10**x/log10 with axioms; root finder stubbed')
+CLAIMED['C19'] = dict(
+    text='hist_bins is executed with np.linspace as a lazy functional array, so bin count n, '
+         'resolution R, range limits and the edge index i are solver variables (linear and log '
+         'scales: n <= 2^19, R <= 2^18); n+1 edges, strict monotonicity and coverage are proved '
+         'for a symbolic index, centring for default n; logicle edges equal the biexponential '
+         'image of the uniform display grid for R in {4,8,1000}, n in {1,2,3,8,R} with T/M/W '
+         'derived or overridden; channel lists, broadcasting, unknown scale.',
+    note='Trusted: lazy linspace model, 10**/log10 axioms, CrossHair, z3 (nonlinear). Outside: '
+         'IEEE rounding of linspace; logicle root p (any p>0).',
+    ref='4/C19', technique=TECH + '; lazy functional arrays with symbolic length')
+
 NA = {
     'C15': 'whole-program run through compiled third-party code and the file system (openpyxl/'
            'pandas xlsx I/O, matplotlib rendering): cannot be executed symbolically; stubbing it '
